@@ -435,8 +435,14 @@ pub fn run_on_this_thread(plan: &Plan, keep_trace: bool) -> RunOutput {
                             let h2 = holder.clone();
                             let w0 = base.clone();
                             let c = calls.clone();
+                            let with_temp = t % 2 == 0;
                             let b = lhs.bind(move |_| {
                                 tick(&c);
+                                if with_temp {
+                                    // a node created and thrown away by the closure before the one that matters
+                                    let tmp = w0.map(|x| *x);
+                                    drop(tmp);
+                                }
                                 let c2 = c.clone();
                                 let n = w0.map(move |x| {
                                     tick(&c2);
